@@ -113,6 +113,11 @@ class Ctx:
         os.makedirs(rdir, exist_ok=True)
         safe = "".join(c if c.isalnum() or c in "-_." else "_" for c in key)[:100]
         path = os.path.join(rdir, "%s.json" % safe)
+        if getattr(self, "replaying", False) and os.path.exists(path):
+            # a replay must not overwrite the file it is replaying
+            self.violations.append((key, detail, path))
+            self.log("violation:", key, json.dumps(detail, default=str)[:400])
+            return
         with open(path, "w") as f:
             json.dump({"property": self.pid, "key": key, "tier": self.tier, "seed": self.seed, "detail": detail}, f, indent=1, default=str)
         self.violations.append((key, detail, path))
